@@ -20,7 +20,7 @@ NA = {}
 m = dict(version=1, setup_cmd='bin/setup',
          hooks=dict(guard='verif-trace', enable='cargo feature verif-trace of ohsl; bin/check builds the harness with --features hooks when /repo/Cargo.toml declares the feature (all verdicts are also reached hook-free)',
                     baseline_off_cmd='cd /repo && cargo test --workspace --no-fail-fast --offline', source_commits=[], add_only=True),
-         engines=[dict(name='tlc+ohsl-conf', path='/verif/bin/check', serves_properties=sorted(CLAIMS), kind_free_text='TLC model checking of spec/*.tla + Rust conformance harness (harness/) executing cases on the real crate + TLC trace validation')],
+         engines=[dict(name='tlc+ohsl-conf', path='/verif/bin/check', serves_properties=sorted(i for i in CLAIMS if i in ids), kind_free_text='TLC model checking of spec/*.tla + Rust conformance harness (harness/) executing cases on the real crate + TLC trace validation')],
          checks=checks,
          not_applicable=[dict(property_id=i, reason=NA.get(i, 'check not built yet (work in progress; the design for it is in DESIGN.md section 4)')) for i in ids if i not in CLAIMS],
          notes='Model-based verification with explicit TLA+ specifications (spec/), TLC design checks, spec->impl replay and impl->spec trace validation; see DESIGN.md. VERIF_SEED seeds every random choice.')
